@@ -14,3 +14,15 @@ func verifTranslateGate(s *TranslateFile) {
 		h(s)
 	}
 }
+
+// VerifTranslateReplGate, when set (before any store is used), is called by
+// replicate on the goroutine that appends a streamed entry to a replica, after
+// the entry has been read from the primary's stream and before the replica's
+// lock is taken. A hook may block there to hold the entry in flight.
+var VerifTranslateReplGate func(s *TranslateFile)
+
+func verifTranslateReplGate(s *TranslateFile) {
+	if h := VerifTranslateReplGate; h != nil {
+		h(s)
+	}
+}
